@@ -13,6 +13,9 @@ import (
 )
 
 func main() {
+	if len(os.Args) > 1 && os.Args[1] == "replay" {
+		os.Exit(replayMain(os.Args[2:]))
+	}
 	if len(os.Args) > 1 && os.Args[1] == "check" {
 		os.Exit(checkMain(os.Args[2:]))
 	}
